@@ -970,33 +970,79 @@ def op_subset(ctx, d, i):
            'corr:Sparse.subset_columns', spec, corr, desc)
 
 
+def write_multi(path, nr, nc, locs, rng):
+    """One h5ad file holding several matrices of the same shape: locs = {'X' | layer name: (M, encoding)}.
+    When 'X' is not among them X is a float32 filler nobody reads (as gen.write_h5ad does)."""
+    import anndata
+    X = gen.encode_matrix(*locs['X']) if 'X' in locs else np.zeros((nr, nc), dtype=np.float32)
+    layers = {k: gen.encode_matrix(*v) for k, v in locs.items() if k != 'X'}
+    a = anndata.AnnData(X=X, obs=pd.DataFrame(index=pd.Index(names('c', nr))),
+                        var=pd.DataFrame(index=pd.Index(names('g', nc))), layers=layers)
+    a.write_h5ad(path)
+    for k, (M, enc) in locs.items():
+        chunks = rng.choice([None, 'contiguous', 2])
+        if chunks is None:
+            continue
+        key = 'X' if k == 'X' else f'layers/{k}'
+        c = None if chunks == 'contiguous' else chunks
+        if enc == 'dense':
+            gen.rechunk(path, key, None if c is None else (c, c))
+        else:
+            for sub in ('data', 'indices', 'indptr'):
+                gen.rechunk(path, f'{key}/{sub}', None if c is None else (c,))
+
+
 def op_amalgamate(ctx, d, i):
+    """src_rows is a list of packets (file, layer, rows); a source file may hold several matrices (X and
+    layers) and may be named by several packets: once, twice with the same layer, with different layers
+    (X + a layer, two layers), adjacent or interleaved with packets of other files."""
     from cell_type_mapper.utils.anndata_utils import amalgamate_h5ad
     rng = ctx.rng
     nc = rng.randrange(1, 9)
     dtype = rng.choice(DTYPES)
-    n_src = rng.randrange(1, 4)
+    n_files = rng.randrange(1, 4)
     dst_sparse = rng.random() < 0.6
+    scenario = rng.choice(['once', 'same-layer', 'two-layers', 'two-layers', 'free', 'free'])
     packets, sources, want, srcdesc = [], [], [], []
     csc_calls, csc_expect = [], []
     sub = d / f'am_{i}'
     sub.mkdir()
-    for s in range(n_src):
+    files = []
+    for s in range(n_files):
         nr = rng.randrange(1, 9)
-        M = np.zeros((nr, nc), dtype=dtype)
-        dens = rng.choice([0.2, 0.6, 1.0])
-        for a in range(nr):
-            for b in range(nc):
-                if rng.random() < dens:
-                    M[a, b] = rand_value(rng, dtype)
-        enc = rng.choice(['csr', 'csc', 'dense'])
-        layer = rng.choice([None, 'raw'])
+        n_loc = rng.choice([1, 1, 2, 2, 3])
+        if s == 0 and scenario == 'two-layers':
+            n_loc = rng.choice([2, 2, 3])
+        locs = {}
+        for loc in rng.sample(['X', 'raw', 'norm'], n_loc):
+            M = np.zeros((nr, nc), dtype=dtype)
+            dens = rng.choice([0.2, 0.6, 1.0])
+            for a in range(nr):
+                for b in range(nc):
+                    if rng.random() < dens:
+                        M[a, b] = rand_value(rng, dtype)
+            locs[loc] = (M, rng.choice(['csr', 'csc', 'dense']))
         p = sub / f'src_{s}.h5ad'
         with quiet():
-            gen.write_h5ad(p, M, names('c', nr), names('g', nc), encoding=enc, layer=layer,
-                           chunks=rng.choice([None, 'contiguous', 2]))
+            write_multi(p, nr, nc, locs, rng)
+        files.append({'path': p, 'nr': nr, 'locs': locs})
+    # which (file, location) each packet reads
+    if scenario == 'once':
+        picks = [(s, rng.choice(sorted(files[s]['locs']))) for s in range(n_files)]
+    else:
+        picks = [(s, rng.choice(sorted(files[s]['locs']))) for s in
+                 [rng.randrange(n_files) for _ in range(rng.randrange(0 if scenario != 'free' else 1, 4))]]
+        if scenario == 'same-layer':
+            l0 = rng.choice(sorted(files[0]['locs']))
+            picks += [(0, l0), (0, l0)]
+        elif scenario == 'two-layers':
+            picks += [(0, l_) for l_ in rng.sample(sorted(files[0]['locs']), 2)]
+        rng.shuffle(picks)
+    for s, loc in picks:
+        M, enc = files[s]['locs'][loc]
+        nr = files[s]['nr']
         rows = rng.sample(range(nr), rng.randrange(1, nr + 1))
-        packets.append({'path': str(p), 'rows': rows, 'layer': layer or 'X'})
+        packets.append({'path': str(files[s]['path']), 'rows': rows, 'layer': loc})
         want.append(M[rows, :])
         if enc == 'dense':
             sources.append([1, code_dense(M), nr, rows])
@@ -1007,7 +1053,17 @@ def op_amalgamate(ctx, d, i):
             E, L, Lc = budgets(10, M.dtype, 'int32', 'int32')
             csc_calls.append((510, [comp_of(sp.csc_matrix(M)), rows, nr, nc, E, L, Lc]))
             csc_expect.append(code_dense(M[rows, :]))
-        srcdesc.append(mdesc(M, encoding=enc, layer=layer, rows=rows))
+        srcdesc.append(mdesc(M, file=s, encoding=enc, layer=None if loc == 'X' else loc, rows=rows))
+    n_src = len(packets)
+    by_file = {}
+    for k, (s, loc) in enumerate(picks):
+        by_file.setdefault(s, []).append((k, loc))
+    reuse = [v for v in by_file.values() if len(v) >= 2]
+    ctx.dist('amalgamate_sources',
+             'every file once' if not reuse else
+             'a file in several packets, ' + ('different layers' if any(len({l_ for _, l_ in v}) >= 2 for v in reuse)
+                                              else 'same layer')
+             + (', interleaved with another file' if any(v[-1][0] - v[0][0] >= len(v) for v in reuse) else ''))
     want = np.concatenate(want, axis=0)
     n_out = want.shape[0]
     obs_df = pd.DataFrame(index=names('o', n_out))
@@ -1019,22 +1075,21 @@ def op_amalgamate(ctx, d, i):
     err = attempt(lambda: amalgamate_h5ad(packets, dst, obs_df, var_df, dst_sparse=dst_sparse,
                                           tmp_dir=str(tmp), compression=compression))
     take_traces()
-    if dst_sparse:
-        res = ctx.model([(1305, [sources, n_out])])[0]
-    else:
-        res = ctx.model([(1306, sources)])[0]
+    allres = ctx.model([(1305, [sources, n_out]) if dst_sparse else (1306, sources)] + csc_calls)
+    res = allres[0]
     spec, corr = [], []
     # CSC sources: the model of the conversion + get_batch must agree with the CSR view used
     # above (a source without any stored value included: the former finding F2)
     csc_err = None
-    for r510, exp in zip(ctx.model(csc_calls) if csc_calls else [], csc_expect):
+    for r510, exp in zip(allres[1:], csc_expect):
         if r510[0] == 1:
             csc_err = csc_err or r510[1]
         elif r510 != [0, exp]:
             corr.append('model of the CSC source (conversion + get_batch) differs from the selected rows')
     if csc_err is not None:
         res = [1, csc_err]
-    desc = {'sources': srcdesc, 'dst_sparse': dst_sparse, 'compression': compression, 'model': res}
+    desc = {'sources': srcdesc, 'scenario': scenario, 'dst_sparse': dst_sparse, 'compression': compression,
+            'model': res}
     left = sorted(p.name for p in tmp.iterdir())
     if err is None:
         enc, arrs = h5ad_x(dst)
@@ -1277,7 +1332,7 @@ def run(ctx):
                 'inside columns, explicit zeros) x index/pointer dtypes x HDF5 chunking x max_gb from the enforced '
                 'minimum (all budgets = 100) upward x routes (transpose_sparse_matrix_on_disk, csc_to_csr_on_disk, '
                 'transpose_sparse_matrix_on_disk_v2 with 1..4 workers); file operations pivot/shuffle/subset/'
-                'amalgamate/copy_layer_to_x/copy_h5_excluding_data on generated h5ad files; _get_slices_for_copy on '
+                'amalgamate (1-3 source files holding 1-3 matrices each in X / layers, 1-5 packets that use every file once, one file twice with the same layer, one file with two different layers, or free picks, in shuffled order; CSR and dense destination)/copy_layer_to_x/copy_h5_excluding_data on generated h5ad files; _get_slices_for_copy on '
                 'every shape up to 6x6. non-trivial = at least 2 stored entries in the slice, >=2 input and >=2 '
                 'output major slices (transposition) / >=2 stored values (file operations)')
     ctx.assumptions += [
@@ -1287,7 +1342,9 @@ def run(ctx):
         'budgets beyond the number of stored entries are clamped to nnz+1 before entering the unary model '
         '(same loop structure)',
         'shuffle_csr_h5ad_rows is driven with permutations of all rows, subset_csc_h5ad_columns with non-empty '
-        'duplicate-free column lists, amalgamate_h5ad with non-empty duplicate-free row lists per source '
+        'duplicate-free column lists, amalgamate_h5ad with non-empty duplicate-free row lists per packet; a source '
+        'file may be named by several packets (same layer, X + a layer, two layers; adjacent or interleaved with '
+        'other files) and all matrices read in one call have the same dtype '
         '(other lists are outside the property, see C05)',
         'a CSC source of amalgamate_h5ad enters the model as the CSR arrays of the same matrix '
         '(its transposition is checked by the transposition cases)',
@@ -1311,6 +1368,9 @@ def run(ctx):
         for i in range(ctx.n(30, 500)):
             for op in (op_pivot, op_shuffle, op_subset, op_amalgamate, op_copy_layer, op_copy_h5):
                 op(ctx, d, i)
+            op_amalgamate(ctx, d, i + 1000000)      # packets x files x layers: a second draw per round
+            shutil.rmtree(d / f'am_{i}', ignore_errors=True)
+            shutil.rmtree(d / f'am_{i + 1000000}', ignore_errors=True)
             for p in d.iterdir():
                 if p.is_file():
                     p.unlink()
